@@ -200,6 +200,12 @@ func (f *FuncVC) oblige(st *State, kind, src, goal string) *Obligation {
 	if st.dead {
 		return nil
 	}
+	if f.con != nil && f.con.Opts["assume_make"] != "" && kind == "make" {
+		// A-MEM: sizes of internal buffers are bounded by available memory
+		f.usedAssumed["allocation sizes in "+f.name()+" are assumed to be within limits (A-MEM)"] = true
+		f.assume(st, goal)
+		return nil
+	}
 	if f.con != nil && f.con.Opts["only"] == "frame" {
 		switch kind {
 		case "index", "slice", "nil", "div", "shift", "make", "typeassert", "panic", "decreases":
